@@ -317,7 +317,7 @@ impl Create {
 
     CreateStep::Searching { input: &input }.print(env)?;
 
-    let content = CreateContent::from_create(&self, &input, env)?;
+    let content = CreateContent::from_create(&self, &input, env, options)?;
 
     let mut output = content.output.resolve(env)?;
 
